@@ -755,6 +755,32 @@ impl<'a> Runner<'a> {
 
 }
 
+/// A pending timeout further away than this counts as "never" for the scheduler (the simulator's own
+/// `random_choice` / `quiescent` are only used when no such timeout is pending).
+const FAR: u64 = 1_000_000_000_000;
+
+/// idle, and no timeout within reach: nothing can happen any more without outside input
+fn settled(sim: &Sim) -> bool {
+    sim.idle() && sim.next_timeout().map(|t| t > sim.time_ms.saturating_add(FAR)).unwrap_or(true)
+}
+
+/// `Sim::random_choice`, with the idle case handled here in saturating arithmetic
+fn next_choice(sim: &Sim, r: &mut Rng, p: &Policy) -> Choice {
+    if sim.idle()
+        && let Some(t) = sim.next_timeout()
+    {
+        if t > sim.time_ms && t <= sim.time_ms.saturating_add(FAR) {
+            let need = t - sim.time_ms;
+            let ms = if r.chance(1, 3) && need > 1 { 1 + r.below(need - 1) } else { need };
+            return Choice::Tick { ms };
+        }
+        // expired already (the worker has not looked yet) or out of reach: let a component step
+        let n = sim.n_workers();
+        return if r.chance(1, 3) { Choice::Env { visible: vec![usize::MAX; n] } } else { Choice::Worker { i: r.usize(n), visible: usize::MAX } };
+    }
+    sim.random_choice(r, p)
+}
+
 fn run_case(case: &Case, model: &mut Model, log: bool) -> Outcome {
     let sc = &case.scenario;
     let n = case.workers;
@@ -791,7 +817,7 @@ fn run_case(case: &Case, model: &mut Model, log: bool) -> Outcome {
         if result.is_none() {
             result = rn.sim.poll_result(req);
         }
-        if rn.sim.quiescent() {
+        if settled(&rn.sim) {
             idle_streak += 1;
             if idle_streak > 2 * (n + 1) {
                 break;
@@ -803,7 +829,7 @@ fn run_case(case: &Case, model: &mut Model, log: bool) -> Outcome {
             continue;
         }
         idle_streak = 0;
-        let c = rn.sim.random_choice(&mut r, &pol);
+        let c = next_choice(&rn.sim, &mut r, &pol);
         rn.step(c);
     }
     if result.is_none() {
@@ -811,7 +837,7 @@ fn run_case(case: &Case, model: &mut Model, log: bool) -> Outcome {
     }
     let mut out = std::mem::take(&mut rn.out);
     out.steps = steps;
-    out.quiescent = rn.sim.quiescent();
+    out.quiescent = settled(&rn.sim);
     out.main = match &result {
         Some(Ok((v, _))) => format!("ok:{}", render_value(v)),
         Some(Err(e)) => format!("err:{}", class_of(e)),
@@ -938,7 +964,9 @@ fn case_json(case: &Case, o: &Outcome) -> serde_json::Value {
 }
 
 fn main() {
-    qverif::quiet_panics();
+    if std::env::var("QVERIF_LOUD").is_err() {
+        qverif::quiet_panics();
+    }
     let opts = Opts::parse();
     let mut ev = Ev::new("C15", &opts);
     ev.rule = "distinct (scenario, workers, quantum, schedule seed) in which at least one process failed and at least one ProcessResults event carrying an error was emitted or recorded, with every worker step compared against the model".into();
@@ -1006,7 +1034,17 @@ fn main() {
             ev.hit("not-run:wall-clock-cap");
             continue;
         }
-        let o = run_case(case, &mut model, false);
+        let o = match qverif::catch(|| run_case(case, &mut model, false)) {
+            Ok(o) => o,
+            Err(msg) => {
+                ev.hit("harness-panic");
+                let mut rj = json!({"case": case, "source": case.scenario.source(), "name": name, "panic": msg});
+                rj["broken"] = json!("the harness could not complete this case");
+                ev.violation("kind=harness-panic", &format!("harness panicked on a case: {msg}"), rj, false);
+                model = Model::spawn(&model_path);
+                continue;
+            }
+        };
         let nontrivial = o.rejected.is_none() && o.results.iter().any(|r| r.starts_with("err")) && o.failures_recorded > 0;
         ev.case(&serde_json::to_string(case).unwrap(), nontrivial);
         ev.hit(&format!("workers={}", case.workers));
